@@ -85,6 +85,12 @@ var plans = map[string]PropPlan{
 		QuickSecs: 80, ThoroughSecs: 1200,
 		Assumptions: append([]string{"loopback TCP (IPv4) and AF_UNIX abstract sockets; after a non-blocking connect the harness waits (bounded, real time) until the kernel has decided the loopback handshake so that replays are deterministic", "the dial timeout runs on the virtual clock: 'within its timeout plus scheduling slack' is read as 'the dial needs no event after its own timer fired'", "a typed-nil connection returned together with an error counts as no connection"}, schedAssume...),
 	},
+	"C15": {
+		Quick: []Plan{{Scenario: "fd.audit", PB: 1, DB: 2, NoIter: true}, {Scenario: "slot.reuse", PB: 2, DB: 0}, {Scenario: "pollmgr", PB: 2, DB: 1}, {Scenario: "dial", PB: 1, DB: 1}},
+		Thorough: []Plan{{Scenario: "fd.audit", PB: 2, DB: 3, NoIter: true}, {Scenario: "slot.reuse", PB: 3, DB: 0}, {Scenario: "pollmgr", PB: 3, DB: 1}, {Scenario: "dial", PB: 2, DB: 1}, {Scenario: "conn.teardown", PB: 2, DB: 0}, {Scenario: "server", PB: 2, DB: 1}},
+		QuickSecs: 110, ThoroughSecs: 1800,
+		Assumptions: append([]string{"every close(2) netpoll issues goes through the descriptor ledger of the syscall shim (creator, owner, open/closed, close count); descriptors created by package net / os.File are registered by the harness", "an adversary opens a descriptor right after every close netpoll issues (it gets the number just freed) and its descriptors must be intact at the end: this also catches closes issued inside os.File that the shim cannot see", "the ledger verdicts of the other scheduled scenarios run under this check are reported here (signature prefix C15)"}, schedAssume...),
+	},
 	"C16": {
 		Quick: []Plan{{Scenario: "adapters", Kind: "seq"}}, Thorough: []Plan{{Scenario: "adapters", Kind: "seq"}},
 		QuickSecs: 90, ThoroughSecs: 1200,
